@@ -108,7 +108,7 @@ pub type A { pub b: *const B, pub kind: Kind, count: u32 }
 with the priority `[b::B, a::A]`, the worst one: `B` is attempted first and has to wait for `A`, `A` has to
 wait for `Kind`, so the build takes three rounds (`Kind`; `A`; `B`) and a fourth to see that nothing is left.
 The hypotheses are proved; that the run is accepted is checked by the kernel, the resolution loop being
-stepped through round by round (`List.mergeSort` does not reduce in the kernel; no `native_decide`). -/
+stepped through round by round (`List.mergeSort` does not reduce in the kernel; every evaluation is `decide +kernel`). -/
 namespace Example
 
 def modA : G.Module :=
